@@ -81,16 +81,39 @@ def selftests(events, rng):
     return out
 
 
+DET_CFG = """INIT Init
+NEXT Next
+CONSTANTS MAXARCS = %d
+ MAXSUBSETS = 5
+ L = 3
+CONSTRAINT Bounded
+INVARIANT OneArcPerSymbol
+INVARIANT Residuals
+INVARIANT PathInvariant
+INVARIANT SameLanguage
+INVARIANT FunctionalAgrees
+CHECK_DEADLOCK FALSE
+"""
+
+
 def run(report, tier, seed):
-    from common import automata_core
+    from common import automata_core, run_tlc, MachineryError
     afam = automata_core(report, 2)
+    # (A) the subset construction as a state machine, every expansion order
+    k = 2 if tier == "quick" else 3
+    res = run_tlc("Determinize", DET_CFG % k, timeout=3000)
+    if not res.ok or res.left != 0:
+        raise MachineryError("Determinize.tla: design-level check failed (the model, not the code):\n" + res.errhead)
+    report.add_tlc(res, f"Determinize.tla: every epsilon-free 2-state machine over {{a,b}} with <= {k} arcs (weights 1/2, 1), every "
+                        "expansion order: OneArcPerSymbol, Residuals, PathInvariant, SameLanguage, FunctionalAgrees")
     standard_run(report, "C13", MODULE, tier, seed, selftests, extra_env={"VERIF_AFAMILY": afam},
                  sample_keys=("op", "fname", "sr", "A", "posts", "site"),
                  rule=("acyclic automata over exact rationals (user Rat semiring and Float with Fractions; finite language, so "
                        "all strings up to the longest path are all strings) and cyclic deterministic ones: determinize, "
                        "min_det (same weights, single initial state, at most one arc per state and symbol, no epsilon), push "
                        "(same weights, stochastic), trim / trim_vals (same weights, only states on accepting paths) also over "
-                       "Sat3/Bool with cycles"))
+                       "Sat3/Bool with cycles; trimming the result of another operation; the number of states of determinize = the "
+                       "number of weighted subsets Determinize.tla reaches on the pushed machine (conformance)"))
 
 
 def replay(report, rp):
